@@ -1,6 +1,6 @@
 (* Property C16 — compiled models coexist in one process without interfering. *)
 From Coq Require Import String ZArith List Bool Arith.
-From TLX Require Import Model.Bits Model.CLang Model.Proc Gen.LibIO Gen.WrapperParams Proofs.C16Facts Model.Threads Gen.Storage Proofs.ThreadsFacts.
+From TLX Require Import Model.Bits Model.CLang Model.Proc Gen.LibIO Gen.WrapperParams Proofs.C16Facts Model.Threads Gen.Storage Proofs.ThreadsFacts Model.ProcAlloc Proofs.ProcAllocFacts.
 Import ListNotations.
 
 (* the library calls made by compile(save) and load in the current source *)
@@ -107,6 +107,26 @@ Theorem C16_unwritten_read_refuted :
            w_shared := fun _ => no_garbage |} [0; 0; 0; 0; 0; 0; 0; 0]) = [[[false]; [true]]].
 Proof. exact unwritten_read_depends_on_history. Qed.
 
+(* ---- file identities that are re-used ---- *)
+(* Model/Proc.v never re-uses an inode number; a file system does (the number of a replaced file is free again).  With the
+   allocation policy a parameter - ANY function returning a number that is neither named by a path, nor mapped by a handle, nor
+   among the temporaries alive during the operation - rename-on-save and private-copy-on-load still produce, for EVERY history,
+   exactly the outputs of the specification *)
+Theorem C16_invariant_any_inode_policy : forall alloc, fresh_policy alloc ->
+  forall ops, arun alloc LPrivateCopy aempty ops = spec_run spec_empty ops.
+Proof. exact histories_refine_spec_any_policy. Qed.
+(* such policies exist: never re-use, smallest free number, and "temporaries on another device, saves take the smallest free number" *)
+Theorem C16_policies_fresh : fresh_policy alloc_never_reuse /\ fresh_policy alloc_smallest_free /\ fresh_policy alloc_two_devices.
+Proof. exact (conj never_reuse_fresh (conj smallest_free_fresh two_devices_fresh)). Qed.
+(* a loader that remembers which libraries it has mapped by the identity (device, inode) of the saved file returns a stale library
+   once a number is re-used: save 1, load, save 2, save 2 (gets the number of the first file), load, call -> model 1, where the
+   specification says 2; under the never-re-use policy the same loader looks correct *)
+Theorem C16_cached_by_identity_refuted :
+  arun alloc_two_devices LCachedByIdentity aempty recycle_history = [RHandle 0; RHandle 1; RHandle 2; RHandle 3; RHandle 4; RValue 1]
+  /\ spec_run spec_empty recycle_history = [RHandle 0; RHandle 1; RHandle 2; RHandle 3; RHandle 4; RValue 2]
+  /\ arun alloc_never_reuse LCachedByIdentity aempty recycle_history = spec_run spec_empty recycle_history.
+Proof. exact cached_by_identity_stale. Qed.
+
 Eval compute in "PA:C16_disciplines"%string. Print Assumptions C16_disciplines.
 Eval compute in "PA:C16_invariant"%string. Print Assumptions C16_invariant.
 Eval compute in "PA:C16_no_crash"%string. Print Assumptions C16_no_crash.
@@ -122,3 +142,6 @@ Eval compute in "PA:C16_stale_memory"%string. Print Assumptions C16_stale_memory
 Eval compute in "PA:C16_shared_static_refuted"%string. Print Assumptions C16_shared_static_refuted.
 Eval compute in "PA:C16_private_example"%string. Print Assumptions C16_private_example.
 Eval compute in "PA:C16_unwritten_read_refuted"%string. Print Assumptions C16_unwritten_read_refuted.
+Eval compute in "PA:C16_invariant_any_inode_policy"%string. Print Assumptions C16_invariant_any_inode_policy.
+Eval compute in "PA:C16_policies_fresh"%string. Print Assumptions C16_policies_fresh.
+Eval compute in "PA:C16_cached_by_identity_refuted"%string. Print Assumptions C16_cached_by_identity_refuted.
